@@ -296,6 +296,10 @@ def run_rc_property(pid, cfg, tier, seed, t0):
         for o in base_opts:
             cmd += ['--opt', o]
         cmd += ['--opt', 'shard=%d' % i, '--opt', 'nshards=%d' % shards, '--opt', 'zseed=%d' % (seed * 1000 + i), '--opt', 'tmpdir=%s' % rundir]
+        # the last shards run with a Zobrist entropy window (see harness/bridge.h)
+        zm = tc.get('zmask_shards', cfg.get('zmask_shards', []))
+        if zm and i >= shards - len(zm):
+            cmd += ['--opt', 'zmask=%s' % zm[i - (shards - len(zm))]]
         shard_cmds[i] = cmd
         with open(lg, 'w') as lf:
             r = subprocess.run(cmd, stdout=lf, stderr=subprocess.STDOUT, env=env)
